@@ -121,8 +121,17 @@ class TextEval(object):
                         out.append(("fld", self.role(v.value), (m.group(2) if m and m.group(2) else ("r" if not spec else "s")),
                                     int(m.group(1)) if (m and m.group(1)) else None))
             return ("str", out)
-        if isinstance(e, ast.List):
-            return ("list", [("one", self.as_text(x)) for x in e.elts])
+        if isinstance(e, (ast.List, ast.Tuple)):
+            segs = []
+            for x in e.elts:
+                if isinstance(x, ast.Starred):
+                    sub = self.ev(x.value)
+                    if sub[0] != "list":
+                        return self.problem(e, "starred element `%s` is not a recognised list of texts" % ast.unparse(x.value)[:60])
+                    segs.extend(sub[1])
+                else:
+                    segs.append(("one", self.as_text(x)))
+            return ("list", segs)
         if isinstance(e, (ast.ListComp, ast.GeneratorExp)):
             for g in e.generators:
                 self.bind_iter(g.target, g.iter)
@@ -169,6 +178,13 @@ class TextEval(object):
                 return ("file", mode)
             if isinstance(fn, ast.Name) and fn.id == "list" and len(e.args) == 1:
                 return self.ev(e.args[0])
+            if ast.unparse(fn) in ("np.char.mod", "numpy.char.mod", "np.strings.mod") and len(e.args) == 2 and not e.keywords and \
+                    isinstance(e.args[0], ast.Constant) and isinstance(e.args[0].value, str):
+                # element-wise FMT % x: one text per element of the array
+                one = self.fmt_percent(e.args[0].value, [e.args[1]], e)
+                if one[0] != "str":
+                    return one
+                return ("list", [("many", [one[1]])])
         return ("unk",)
 
     def as_text(self, e):
